@@ -325,6 +325,56 @@ func attributeSweep() {
 	}
 }
 
+// linkSweep: every ordered pair of hyperlink states (none; two URLs; each with no id, id=1, id=2) in neighbouring
+// cells of one row, written in one frame, then the second cell alone rewritten in the next frame.
+func linkSweep() {
+	cfg := &config{Name: "links", Cols: 14, Rows: 2}
+	w := open(cfg)
+	defer w.close()
+	links := []vaxis.Style{{}}
+	for _, u := range []string{"http://x", "http://y"} {
+		for _, id := range []string{"", "id=1", "id=2"} {
+			links = append(links, vaxis.Style{Hyperlink: u, HyperlinkParams: id})
+		}
+	}
+	check := func(what string, cost int) bool {
+		snap := w.con.M.VerifSnapshot()
+		if mm := w.m.Compare(emucon.View{S: snap}, w.prof); mm != nil {
+			r.Violation(fmt.Sprintf("C12|emulator|links|%s|want=%s|shows=%s", mm.Clause, mm.WantKind, mm.GotKind), cost,
+				detail{Search: "links", Screen: "14x2", Frames: []string{what}, Stage: "emulator", Why: fmt.Sprintf("row %d col %d: %s", mm.Row, mm.Col, mm.Detail)})
+			return false
+		}
+		return true
+	}
+	for ai, a := range links {
+		win := w.vx.Window()
+		// one row: a b0 a b1 a b2 ... (every b after this a), all written in one frame
+		for bi, b := range links {
+			for k, st := range []vaxis.Style{a, b} {
+				c := vaxis.Cell{Character: ch(string(rune('a'+k)), 1), Style: st}
+				win.SetCell(2*bi+k, 0, c)
+				w.m.SetCell(2*bi+k, 0, c)
+			}
+		}
+		w.vx.Render()
+		r.Count("link_frames", 1)
+		if !check(fmt.Sprintf("pairs (%+v, each link state) in one frame", a), ai) {
+			return
+		}
+		// next frame: only the second cell of each pair changes its grapheme (and is rewritten alone)
+		for bi, b := range links {
+			c := vaxis.Cell{Character: ch("c", 1), Style: b}
+			win.SetCell(2*bi+1, 0, c)
+			w.m.SetCell(2*bi+1, 0, c)
+		}
+		w.vx.Render()
+		r.Count("link_frames", 1)
+		if !check(fmt.Sprintf("pairs (%+v, each link state), second cells rewritten", a), ai) {
+			return
+		}
+	}
+}
+
 func accessorCheck() {
 	cfg := &config{Name: "acc", Cols: 4, Rows: 2}
 	w := open(cfg)
@@ -389,6 +439,7 @@ func main() {
 			accessorCheck()
 			paletteSweep()
 			attributeSweep()
+			linkSweep()
 			r.WorkerDone()
 		}
 		name := strings.SplitN(arg, ":", 3)[1]
@@ -410,7 +461,7 @@ func main() {
 	}
 	r.Finish(explore.Coverage{
 		States: states, Transitions: trans + r.Get("accessor_checks"), Traces: trans, Evaluations: trans,
-		Rule:        "explicit-state BFS over (guest Vaxis, real term.Model, host Vaxis + reference terminal): the guest's bytes go through the real ansi.Parser into the emulator, whose replies are the guest's input (so the guest runs under the capability set the emulator advertises); a transition is one frame (optional Clear, one SetCell from a 14-cell alphabet incl. ZWJ, flag, VS16, zero-width, all attributes, hyperlink, RGB background, styled+coloured underline; or a cursor request; Render or Refresh); after the last frame of every path the emulator's grid/cursor and, after Model.Draw into a host window of the same size and Render (twice: the second host frame follows without new output from the guest), the host terminal must equal the application's record (colours/underlines after the fallback the advertised capabilities imply); plus the start-up accessor table",
+		Rule:        "explicit-state BFS over (guest Vaxis, real term.Model, host Vaxis + reference terminal): the guest's bytes go through the real ansi.Parser into the emulator, whose replies are the guest's input (so the guest runs under the capability set the emulator advertises); a transition is one frame (optional Clear, one SetCell from a 14-cell alphabet incl. ZWJ, flag, VS16, zero-width, all attributes, hyperlink, RGB background, styled+coloured underline; or a cursor request; Render or Refresh); after the last frame of every path the emulator's grid/cursor and, after Model.Draw into a host window of the same size and Render (twice: the second host frame follows without new output from the guest), the host terminal must equal the application's record (colours/underlines after the fallback the advertised capabilities imply); plus all 7x7 ordered pairs of hyperlink states (two URLs x no id / two ids) in neighbouring cells written in one frame and with the second cell rewritten alone, plus the start-up accessor table",
 		Exhaustive:  exhaustive,
 		Bounds:      bounds,
 		Assumptions: []string{"width tables as in C01", "a write of the guest is delivered to the emulator's parser in one read (frames are far below bufio's 4096 bytes)"},
